@@ -56,6 +56,19 @@ func c28MetaIfaces(p combinator.Path) []c28Iface {
 	return out
 }
 
+// c28MACsKey identifies a forwarding path by its segment lengths and hop-field MACs only.
+func c28MACsKey(segs []c28Seg) string {
+	k := ""
+	for _, s := range segs {
+		k += "["
+		for _, h := range s.Hops {
+			k += fmt.Sprintf("%x ", h.MAC)
+		}
+		k += "]"
+	}
+	return k
+}
+
 func c28UsesString(c *c28Cand) []string {
 	var out []string
 	for _, u := range c.Uses {
@@ -185,6 +198,7 @@ func TestC28(t *testing.T) {
 						cands := c28Enumerate(srcIA, dstIA, ups, cores, downs)
 						nCands += int64(len(cands))
 						byRaw := map[string][]*c28Cand{}
+						byMACs := map[string]*c28Cand{}
 						latest := map[string]time.Time{} // interface sequence -> latest expiry over loop-free candidates
 						nBySeq := map[string]int{}
 						differing := map[string]bool{}
@@ -196,6 +210,7 @@ func TestC28(t *testing.T) {
 							}
 							k := c28SegsKey(c.Segs)
 							byRaw[k] = append(byRaw[k], c)
+							byMACs[c28MACsKey(c.Segs)] = c
 							if c28MaxPerAS(c.Ifaces) > 2 {
 								continue
 							}
@@ -253,7 +268,13 @@ func TestC28(t *testing.T) {
 								// (2) <= 1 up, core, down in order; info + hop fields are those of the input segments
 								cs := byRaw[rk]
 								if len(cs) == 0 {
-									r.Violation("path-is-not-a-join-of-up-core-down-input-segments", pd("parsed", rk))
+									// same hop-field MACs as a model join but other bytes differ: a field was not copied from the entry it belongs to
+									if near := byMACs[c28MACsKey(raw.Segs)]; near != nil {
+										r.Violation("info-or-hop-field-not-byte-for-byte-from-the-input-entry/"+near.Kind, pd("parsed", rk,
+											"expected", c28SegsKey(near.Segs), "segments", c28UsesString(near)))
+									} else {
+										r.Violation("path-is-not-a-join-of-up-core-down-input-segments", pd("parsed", rk))
+									}
 									continue
 								}
 								c := cs[0]
